@@ -438,6 +438,14 @@ func init() {
 			ex.setBig(a[0], ex.tf.Int(v))
 			return Tuple{a[0], BoolV{ex.tf.True}}
 		}
+		if base == 0 {
+			val, ok := ex.parseBase0(ex.strBytes(s))
+			if ok {
+				ex.setBig(a[0], val)
+				return Tuple{a[0], BoolV{ex.tf.True}}
+			}
+			return Tuple{Ptr{}, BoolV{ex.tf.False}}
+		}
 		if base == 10 {
 			val, okT := ex.parseDecimal(ex.strBytes(s), true)
 			if ex.branchNoSite(okT) {
@@ -875,4 +883,113 @@ func (ex *Exec) atoi(s Str, bits int, signed bool) Value {
 		return Tuple{Int{val}, Iface{}}
 	}
 	return Tuple{Int{f.I64(0)}, errV()}
+}
+
+// parseBase0 models big.Int.SetString(s, 0) on a short symbolic string: every character is first classified by
+// forking (sign, '0', octal digit, 8/9, hex letter, base letters b/o/x), then Go's prefix rules are applied to the
+// now concrete shape; digit values stay symbolic. Underscore separators are not modelled (inconclusive).
+func (ex *Exec) parseBase0(bs []*Term) (*Term, bool) {
+	f := ex.tf
+	if len(bs) > 6 {
+		panic(engineErr("base-0 numeral longer than 6 characters"))
+	}
+	type cls struct {
+		k string // M P Z O N B H X Q(o) other
+		v *Term  // digit value (hex)
+	}
+	in := func(c *Term, lo, hi byte) *Term { return f.And(f.Le(f.I64(int64(lo)), c), f.Le(c, f.I64(int64(hi)))) }
+	classify := func(c *Term) cls {
+		eq := func(ch byte) *Term { return f.Eq(c, f.I64(int64(ch))) }
+		switch {
+		case ex.branchNoSite(eq('-')):
+			return cls{k: "M"}
+		case ex.branchNoSite(eq('+')):
+			return cls{k: "P"}
+		case ex.branchNoSite(eq('0')):
+			return cls{k: "Z", v: f.I64(0)}
+		case ex.branchNoSite(in(c, '1', '7')):
+			return cls{k: "O", v: f.Sub(c, f.I64('0'))}
+		case ex.branchNoSite(in(c, '8', '9')):
+			return cls{k: "N", v: f.Sub(c, f.I64('0'))}
+		case ex.branchNoSite(f.Or(eq('b'), eq('B'))):
+			return cls{k: "B", v: f.I64(11)}
+		case ex.branchNoSite(f.Or(eq('x'), eq('X'))):
+			return cls{k: "X"}
+		case ex.branchNoSite(f.Or(eq('o'), eq('O'))):
+			return cls{k: "Q"}
+		case ex.branchNoSite(in(c, 'a', 'f')):
+			return cls{k: "H", v: f.Sub(c, f.I64('a'-10))}
+		case ex.branchNoSite(in(c, 'A', 'F')):
+			return cls{k: "H", v: f.Sub(c, f.I64('A'-10))}
+		case ex.branchNoSite(eq('_')):
+			panic(engineErr("underscore separator in a base-0 numeral is not modelled"))
+		}
+		return cls{k: "?"}
+	}
+	var cs []cls
+	for _, b := range bs {
+		c := classify(b)
+		if c.k == "?" {
+			return nil, false
+		}
+		cs = append(cs, c)
+	}
+	neg := false
+	if len(cs) > 0 && (cs[0].k == "M" || cs[0].k == "P") {
+		neg = cs[0].k == "M"
+		cs = cs[1:]
+	}
+	if len(cs) == 0 {
+		return nil, false
+	}
+	base := int64(10)
+	digits := cs
+	if cs[0].k == "Z" && len(cs) > 1 {
+		switch cs[1].k {
+		case "B":
+			base, digits = 2, cs[2:]
+		case "Q":
+			base, digits = 8, cs[2:]
+		case "X":
+			base, digits = 16, cs[2:]
+		default:
+			base, digits = 8, cs[1:] // legacy octal: the leading 0 counts as a digit
+			if len(digits) == 0 {
+				return f.I64(0), true
+			}
+		}
+		if len(digits) == 0 {
+			return nil, false
+		}
+	}
+	val := f.I64(0)
+	for _, d := range digits {
+		ok := false
+		switch d.k {
+		case "Z":
+			ok = true
+		case "O":
+			ok = base >= 8
+			if base == 2 {
+				// only '1' is a binary digit
+				one := f.Eq(d.v, f.I64(1))
+				if !ex.branchNoSite(one) {
+					return nil, false
+				}
+				ok = true
+			}
+		case "N":
+			ok = base >= 10
+		case "B", "H":
+			ok = base == 16
+		}
+		if !ok {
+			return nil, false
+		}
+		val = f.Add(f.Mul(val, f.I64(base)), d.v)
+	}
+	if neg {
+		val = f.Neg(val)
+	}
+	return val, true
 }
